@@ -29,8 +29,15 @@ func VerifH_C10_WrapV1() {
 	root := vCidID("root")
 	secs := vTwoSections()
 	src := vPayload(vHeaderV1(root), secs)
+	var wopts []Option
+	if vChoose("nullPadded", 2) == 1 {
+		// a null-padded CARv1 wrapped with ZeroLengthSectionAsEOF: the whole source is the payload
+		src = append(src, make([]byte, 1+vChoose("nullPad", 3))...)
+		wopts = append(wopts, ZeroLengthSectionAsEOF(true))
+		vCover("wrapped-null-padded", true)
+	}
 	dst := &vSinkW{}
-	err := WrapV1(&vSeekStream{vStream{data: src}}, dst)
+	err := WrapV1(&vSeekStream{vStream{data: src}}, dst, wopts...)
 	vAssert("wrap-ok", err == nil)
 	n := len(src)
 	vAssert("length", len(dst.buf) > 51+n)
@@ -77,8 +84,12 @@ func VerifH_C10_ExtractV1File() {
 	dst := vFSPath("dst.car")
 	switch vChoose("destState", 3) {
 	case 0: // absent
-	case 1: // pre-existing longer file
-		vFSWriteFile(dst, vBytes("old", len(file)+4))
+	case 1: // pre-existing longer file: just longer than the payload, or longer than the whole source
+		oldLen := len(payload) + 1
+		if vChoose("oldMuchLonger", 2) == 1 {
+			oldLen = len(file) + 4
+		}
+		vFSWriteFile(dst, vBytes("old", oldLen))
 		vCover("over-longer-file", true)
 	case 2: // in place
 		dst = src
